@@ -199,6 +199,8 @@ type reqState struct {
 	discarded  bool
 	retrieved  bool
 	epochTaken int
+	// flushedAtPort: still waiting at the top port when a restart was processed
+	flushedAtPort bool
 }
 
 // RunCase executes one case.
@@ -400,6 +402,10 @@ func RunCase(c Case) (res stats.Result) {
 				fail("the buffer forwarded a request to the lower level (addr 0x%x) although no unforwarded request was waiting at its top port", cp.GetAddress())
 				break
 			}
+			if st[i].flushedAtPort {
+				fail("%s was waiting at the top port when the buffer was restarted (it belongs to the flushed epoch), yet it is forwarded to the lower level afterwards", describe(i))
+				break
+			}
 			st[i].status = 1
 			st[i].copy = cp
 			st[i].epochTaken = epoch
@@ -520,6 +526,14 @@ func RunCase(c Case) (res stats.Result) {
 				draining = false
 				flushing = false
 				epoch++
+				// whatever still waits at the top port was sent before the flush completed: it
+				// belongs to the flushed epoch (the requester has forgotten it) and the restart
+				// drops it; it must never be forwarded or answered
+				for _, i := range topQ {
+					if st[i].status == 0 {
+						st[i].flushedAtPort = true
+					}
+				}
 			}
 			ctlQ = ctlQ[1:]
 		case "tick:":
